@@ -148,7 +148,7 @@ Proof.
   - unfold do_win. destruct (_ >? _); [|exact H]. eapply InvD_core; [|exact H]. reflexivity.
   - unfold do_cwin. destruct (_ >? _); [|exact H]. eapply InvD_core; [|exact H]. reflexivity.
   - unfold do_rel. destruct (isSome _); [exact H|]. eapply InvD_core; [|exact H]. reflexivity.
-  - eapply InvD_core; [|exact H]. reflexivity.
+  - unfold do_enable. destruct (isSome _); [exact H|]. eapply InvD_core; [|exact H]. reflexivity.
   - unfold do_shutdown in *. destruct (_ && _); cbn [fst] in *; ssimp; [discriminate|].
     eapply InvD_core; [|exact H]. reflexivity.
 Qed.
@@ -244,7 +244,7 @@ Proof.
   - unfold do_win. destruct (_ >? _); cbn; unfold cz; ssimp; lia.
   - unfold do_cwin. destruct (_ >? _); cbn; unfold cz; ssimp; lia.
   - unfold do_rel. destruct (isSome _); cbn; unfold cz; ssimp; lia.
-  - cbn. unfold cz. ssimp. lia.
+  - unfold do_enable. destruct (isSome _); cbn; unfold cz; ssimp; lia.
   - unfold do_shutdown. destruct (_ && _); cbn; unfold cz; ssimp; lia.
 Qed.
 
@@ -299,7 +299,7 @@ Proof.
   - unfold do_win. destruct (_ >? _); exact H.
   - unfold do_cwin. destruct (_ >? _); exact H.
   - unfold do_rel. destruct (isSome _); exact H.
-  - exact H.
+  - unfold do_enable. destruct (isSome _); exact H.
   - unfold do_shutdown. destruct (_ && _); cbn [fst]; ssimp; [reflexivity|exact H].
 Qed.
 
